@@ -20,7 +20,7 @@ st = ['| id | theorems audited on every run | generated (translator) Lean files 
 gen_by_prop = {'C01': 'Gen/Core', 'C02': 'Gen/{Components,Transform,CircuitTables}', 'C07': 'Gen/{Components,Transform,CircuitTables}',
                'C19': 'Gen/{Components,CircuitTables}', 'C08': 'Gen/Fourier', 'C17': 'Gen/LoadTables', 'C20': 'Gen/Effects',
                'C18': 'Gen/{FmtTables,FmtGuard}', 'C14': 'Gen/AnnotTables', 'C13': 'Gen/DrawTables', 'C15': 'Gen/DrawTables', 'C06': 'Gen/{PortImports,Port}', 'C09': 'Gen/Freq', 'C03': 'Gen/Freq',
-               'C12': 'Gen/{StateSpace,Solution}', 'C10': 'Gen/StateSpace', 'C05': 'Gen/Solution', 'C16': 'Gen/Transformers', 'C04': 'Gen/Transformers'}
+               'C12': 'Gen/{StateSpace,Solution}', 'C10': 'Gen/{StateSpace,StateWrap}', 'C11': 'Gen/StateWrap', 'C05': 'Gen/Solution', 'C16': 'Gen/Transformers', 'C04': 'Gen/Transformers'}
 for i in range(1, 21):
     pid = f'C{i:02d}'
     try:
